@@ -27,6 +27,11 @@ inductive Out (κ ν : Type) where
   | cleared (n : Int) (d : List (κ × ν))
   | num (n : Int)
 
+/-- `p_tree_new_full` gives a tree exactly when the type is one of the three (`P_TREE_TYPE_BINARY = 0 … P_TREE_TYPE_AVL = 2`),
+    a comparator is given and the allocation of the handle succeeds; otherwise NULL (and nothing was allocated) -/
+def newFull (ty : Int) (funcGiven allocOk : Bool) : Bool :=
+  (decide (0 ≤ ty) && decide (ty ≤ 2)) && funcGiven && allocOk
+
 /-! ### spec -/
 def specStep (cmp : κ → κ → Ordering) (l : List (κ × ν)) : Op κ ν → List (κ × ν) × Out κ ν
   | .ins k v => let l' := SM.insert cmp l k v; (l', .ins l'.length (SM.find cmp l k).toList)
